@@ -39,11 +39,80 @@ CLAIMS["C11"] = (
     "Kani full-domain harnesses on the real crates (complete for fixed-length decoders) + bounded harnesses for validators",
     "6 C11")
 
+KANI_TB = ("Trusted: Kani 0.68/CBMC 6.11 (bit-precise, overflow checks on); rustc/Kani compilation of the real crates; "
+           "stubs listed in the evidence (global chain-type accessors replaced by an arbitrary per-harness value, alloc::fmt::format, hash finalisation where stated); ")
+VERUS_TB = ("Trusted: Verus 0.2026.09.13 + Z3, vstd lemmas; the unit's prelude (spec functions and every external_body/assume_specification item, counted by a scan on each run); "
+            "the extraction transformations T1-T6 listed in DESIGN 2.2 (source path, line span and SHA-256 of each extracted item are in the evidence); ")
+
+CLAIMS["C01"] = ("Only the scalar side of the balance equation is decided: for every header the per-block overage is exactly -60 grin, total_overage is "
+    "-(height[+1])*REWARD in the stated height range, reward(fee) saturates (Kani, full domain). That grin's code assembles the group equation "
+    "(commit sums, kernel sums, offsets) and the 'after any accepted history' clause are NOT decided (libsecp256k1 FFI / history).",
+    KANI_TB + "everything cryptographic and every history clause is outside.", "Kani full-domain harness on the real functions", "6 C01")
+CLAIMS["C02"] = ("Deductive proof (Verus) of the unspent-leaf bitmap algebra on the real LeafSet code: add/remove change exactly one position, rewind(cutoff, rm) yields "
+    "(old restricted to <= cutoff) union rm as a whole-view postcondition, discard restores the last flushed bitmap. The chain-level statement over forks, "
+    "reorganisations, restart and compaction is a history property and is not decided.",
+    VERUS_TB + "croaring::Bitmap is C code: its operations are assumed set operations; positions < 2^32-1.", "Verus contracts on extracted real functions over an abstract bitmap", "6 C02")
+CLAIMS["C03"] = ("One clause only: the head can move only to strictly more cumulative work -- has_more_work(h, tip) <=> h.total_difficulty > tip.total_difficulty for all u64 pairs, the derived "
+    "ordering on Difficulty is the numeric one, Tip::from_header copies height/prev/difficulty (Kani, full domain). Delivery-order independence and head = argmax over accepted blocks are "
+    "whole-history properties through LMDB and are not decided.",
+    KANI_TB + "header hash stubbed to a constant.", "Kani full-domain harness on the real functions", "6 C03")
+CLAIMS["C04"] = ("Proof-level (Kani, full domain of u64 heights x 4 chain types) for the header version schedule (in 1..=5, monotone, equals the table), damp/clamp bounds, "
+    "secondary_pow_ratio, graph_weight shift safety, and the wtema retarget: total on any two-header window, never below the minimum, exactly the floor formula (hence bounded change), "
+    "and next_difficulty uses wtema from version 5. validate_header's conjunction of checks, the DMA window (61 headers) and the header-MMR root are not decided here.",
+    KANI_TB + "difficulty <= 2^40 and block time <= 2^20 s in the wtema harness (stated ranges).", "Kani full-domain harnesses on the real functions", "6 C04")
+CLAIMS["C05"] = ("Proof-level (Kani, complete per edge_bits) that proofs survive serialisation bit-exactly: for every byte string of the right length, whatever Proof::read accepts re-encodes to the "
+    "same bytes (so non-zero padding bits are refused) and every nonce fits edge_bits; decode(encode(p)) == p for all nonce vectors; edge_bits 0 and >63 refused. One harness per edge_bits "
+    "(quick: 10 representative values, thorough: all 63) and proof sizes 42 and 8. Cycle verification (the five graph variants) is NOT yet under contract.",
+    KANI_TB + "siphash and cycle verifiers outside.", "Kani complete harnesses (full byte domain, constant loop bounds) on the real functions", "6 C05")
+CLAIMS["C06"] = ("Store level only: deductive proof (Verus) on the real AppendOnlyFile::rewind/discard text that discard restores the last flushed view (buffer emptied, start position back to "
+    "the flushed size, backup cleared) after any rewind, with 'flushed' as the invariant; read_from_buffer in range. The chain-level statement (failed process_block leaves head/roots/index "
+    "unchanged) goes through LMDB nested transactions and closures and is not decided.",
+    VERUS_TB + "File/Mmap external; the variable-size (size file) path is abstracted by T6 helpers.", "Verus contracts on extracted real functions", "6 C06")
+CLAIMS["C10"] = ("Proof-level (Kani, complete) for the fixed-size consensus types decided so far: KernelFeatures (all four variants), FeeFields, NRDRelativeHeight: for ALL 17-byte strings x ALL u32 protocol "
+    "versions x both NRD settings, whatever read accepts re-encodes byte-identically (unknown tags, non-zero reserved bytes, out-of-range heights refused); decode(encode(v)) == v for all values and versions; "
+    "the hash-mode byte stream is version independent. Containers (bodies, blocks, segments, handshake) are not yet under contract.",
+    KANI_TB + "KReader/KWriter model BinReader/BinWriter over slices.", "Kani complete harnesses on the real read/write functions", "6 C10")
+CLAIMS["C12"] = ("BOUNDED stand-in only (labelled bounded, not proved): cut_through on the real code removes exactly the matched spend pairs -- per commitment value min(cin, cout) pairs are cut, the "
+    "rest kept, failure iff a duplicate remains -- for all inputs with <= 3 inputs and <= 3 outputs over 8 commitment values. aggregate/deaggregate/hydration are not yet under contract.",
+    KANI_TB + "bounded: slice lengths <= 3.", "Kani bounded harness with an executable multiset oracle", "6 C12")
+CLAIMS["C13"] = ("BOUNDED stand-in only: block-level absolute lock heights (refused iff some height-locked kernel has lock_height > block height), the NRD/header-version rule and body lock_height == max, "
+    "for all blocks with <= 3 kernels of arbitrary variants; NRDRelativeHeight range is proved for all u64 (C10 unit). Coinbase maturity (needs LMDB), per-fork evaluation and the pool path are not decided.",
+    KANI_TB + "bounded: <= 3 kernels.", "Kani bounded harness on the real functions", "6 C13")
+CLAIMS["C14"] = ("Two clauses, proof-level (Kani): for ALL input/output/kernel counts and all chain types, a body admitted by the transaction weight rule assembles with the coinbase into a block within the "
+    "block weight limit (weight formula, AsTransaction/AsLimitedTransaction/AsBlock rules); the minimum-fee comparison uses shifted_fee == (sum of kernel fees) >> max fee_shift and weight * base. "
+    "Joint validity of the pool against the chain, reconciliation, eviction and reorg handling are history properties and are not decided.",
+    KANI_TB + "counts installed with Vec::set_len (no element is read); fee fold bounded to 2 kernels.", "Kani full-domain harnesses on the real functions", "6 C14")
+CLAIMS["C15"] = ("Arithmetic only, proof-level (Kani, all u64): chunk_start_idx(i) == 1024*chunk_idx(i) <= i < +1024, monotone; the in-chunk index used by apply_from is always inside the chunk. "
+    "Path independence of the accumulator across histories, restart and rejection of tampered output roots are not decided.",
+    KANI_TB, "Kani full-domain harness on the real functions", "6 C15")
+CLAIMS["C19"] = ("Header level, proof-level (Kani): for ALL 11-byte headers x chain types x versions, wrong magic is refused having read only the magic bytes; a known type is accepted only with "
+    "msg_len <= 4 x the published per-type limit (independent table); unknown types only within the default limit; nothing within limits is refused; MsgHeader round trip. Codec buffering under "
+    "fragmentation, Headers batching and socket-level handshake refusals are not yet under contract.",
+    KANI_TB, "Kani complete harnesses on the real read/write functions", "6 C19")
+CLAIMS["C20"] = ("Two encodings only, proof-level (Kani, full domain): derivation path <-> identifier and serialized path are exact inverses for every depth byte and all u32 elements; parent_path / "
+    "last_path_index for depths 0..=4. BIP32 derivation, commitments, range-proof create/verify/rewind and blinding arithmetic are libsecp256k1 behind FFI and are not decided.",
+    KANI_TB, "Kani full-domain harnesses on the real functions", "6 C20")
+CLAIMS["C08"] = ("Deductive proof (Verus) on the real PruneList code of the representation invariant every translated read depends on: one cache entry per pruned root in position order, "
+    "each the prefix sum of the per-root contributions (2*(2^h-1) nodes, 2^h leaves); get_shift/get_leaf_shift/get_total_* return exactly those prefix sums, calculate_next_* extend them, "
+    "append_single and cleanup_subtree preserve the invariant and append / truncate the root sequence as specified; plus AppendOnlyFile::discard/rewind (flushed view restored). "
+    "PruneList::append's recursion, is_pruned, the PMMRBackend position translation, file rewriting during compaction, reopen and the chain-level statement are not decided.",
+    VERUS_TB + "croaring::Bitmap viewed as a sorted sequence with assumed rank/maximum/add/remove_range contracts; node height used through its C07 contract; shift sums assumed to fit u64.",
+    "Verus contracts + representation invariant on extracted real functions", "6 C08")
+CLAIMS["C16"] = ("Arithmetic, proof-level (Verus, unbounded): on the real SegmentIdentifier code, for every identifier with height <= 62 and idx*2^height < 2^62 and every mmr_size: the first position is the "
+    "position of leaf idx*2^height, a full segment is exactly one complete subtree (last = first + 2^(height+1) - 2, and that position has height `height` in the explicit tree), a partial last segment ends "
+    "at mmr_size - 1; capacity/offset/unpruned size as specified. Uses the C07 contracts modularly (included and re-verified). Tamper-resistance of Segment::validate is covered only by the bounded "
+    "C11 no-panic unit; Segmenter/Desegmenter assembly, prunable segments with a bitmap, and 'never finalises a wrong state' are not decided.",
+    VERUS_TB, "Verus contracts on extracted real functions, reusing the C07 position-arithmetic proofs", "6 C16")
+BOUNDED_ONLY = {"C12", "C13"}
+
 NOT_APPLICABLE = {
     "C09": "quantifies over crash points and restart recovery through LMDB + files; a function contract speaks about one call that returns, and neither Kani nor Verus can execute LMDB/std::fs (DESIGN 7)",
     "C17": "quantifies over thread schedules; Kani has no thread support and Verus needs its own permission-typed primitives that grin's RwLock/LMDB code does not use (DESIGN 7)",
     "C18": "atomicity/isolation/durability are implemented by LMDB (C via FFI), the resize gate is cross-thread and its threshold floating point; out of reach of both back ends (DESIGN 7)",
 }
+NOT_APPLICABLE["C12"] = ("no unit of this property could be brought within reach: Kani cannot execute the slice sorting inside cut_through/aggregate in reasonable time "
+    "(sorting three 33-byte commitments did not finish in 15 minutes), CompactBlock::from draws a thread-local random nonce, and a Verus proof of cut_through needs &mut-slice swaps/split_at_mut that the "
+    "extraction table does not cover; the bounded harness is kept under units/_disabled/C12 and is not claimed")
 NOT_BUILT = "not built yet: no unit of this property is finished in the current commit (see DESIGN 6 for the plan)"
 
 
@@ -63,7 +132,8 @@ def main():
                 "evidence_file": "/verif/evidence/%s.json" % pid,
                 "replay_cmd_template": "./check %s --replay {path}" % pid,
                 "engine": "contracts",
-                "level_claimed": {"category": "proof", "text": text, "design_ref": ref},
+                "level_claimed": {"category": "model_checking" if pid in BOUNDED_ONLY else "proof",
+                                  "text": text, "design_ref": ref},
                 "level_note": note,
                 "technique": tech,
             })
